@@ -177,7 +177,10 @@ PROPS = {
                             'diagnostics and file output dropped, line numbers in the evidence) on an 8x8x8x8 grid (quick) / 10x8x9x8 '
                             '(thorough), iotaVal 0.8 (thorough also 0), process counts 2,4 (thorough 2,3,4,6) against the serial run, '
                             'tolerance 1e-10 relative for f, 1e-8 for phi')],
-        assumptions=['simulated MPI (vf/shim)', 'reductions are not compared bit for bit (floating-point reassociation)'],
+        assumptions=['simulated MPI (vf/shim)', 'reductions are not compared bit for bit (floating-point reassociation)',
+                     'wiring contracts: the Grid invariant (local array has the layout shape, ranges inside the global axes, trailing '
+                     'axes whole) is a precondition (C02/C04); f_eq and perturbation are uninterpreted pure functions',
+                     'quasi-neutrality solve and the composition into a Strang step: bounded part only'],
     ),
     'C12': dict(
         level='proof',
